@@ -94,5 +94,5 @@ MUTANTS = {
     'translate_pmax_minus': {'module': 'region', 'contract': 'Region.translate', 'config': {'ndim': 2, 'inplace': True},
                              'old': 'self._pmax = np.add(self.pmax, vector)', 'new': 'self._pmax = np.add(self.pmin, vector)'},
     'rotate_sign': {'module': 'region', 'contract': 'Region.rotate90', 'config': {'ndim': 2, 'inplace': False, 'ax1': 0, 'ax2': 1},
-                    'old': '[np.cos(theta), -np.sin(theta)],', 'new': '[np.cos(theta), np.sin(theta)],'},
+                    'old': '[cos, -sin],', 'new': '[cos, sin],'},
 }
